@@ -265,7 +265,60 @@ def torn_writes(ctx):
                              "which is not the original with atoms deleted", case)
 
 
+def after_other_strategies(ctx):
+    """a process that has constructed (and used) the other strategy classes first — an embedding tool, a test runner — and then
+    runs a completely fresh deletion-only strategy: class-level state the others leave behind (hook lists, option defaults)
+    must not make the fresh one rewrite atoms"""
+    import lithium.strategies as S
+    parts = [b"{\n", b"}\n", b"a\n", b"{\n", b" \n", b"}\n", b"b\n"]
+    f = (b"", parts, [True] * len(parts), b"")
+    made = []
+    for cls in vars(S).values():
+        if isinstance(cls, type) and issubclass(cls, S.Strategy) and cls is not S.Strategy:
+            try:
+                made.append(cls())
+            except Exception:  # noqa: BLE001 - abstract or needing arguments: not our concern here
+                pass
+    # and one of each rewriting kind has also run to completion before
+    for other in ("minimize-collapse-brace", "replace-properties-by-globals"):
+        tc0 = strat.testcase_from_fields("line", f)
+        tc0.filename = str(loaders.scratch() / "c04-other.txt")
+        it = strat.make_strategy(other, {}).reduce(tc0)
+        for k, _a in enumerate(it):
+            it.feedback(k % 2 == 0)
+            if k > 200:
+                break
+    for name in STRATS:
+        for cfg in ({}, {"rep": "always"}):
+            for accept in (0, 1, 2, 3):
+                tc1 = strat.testcase_from_fields("line", f)
+                tc1.filename = str(loaders.scratch() / "c04-fresh.txt")
+                it = strat.make_strategy(name, cfg).reduce(tc1)
+                case = dict(strategy=name, cfg=cfg, parts=enc_list(parts), after_other_strategies=[type(x).__name__ for x in made])
+                ctx.evaluations += 1
+                ctx.bump("after-other-strategies")
+                k = 0
+                for attempt in common.guarded_iter(it, lambda exc: ctx.fail(
+                        "internal-error", f"{name} {cfg}, run after the other strategy classes were constructed and used: {type(exc).__name__}: {exc}", case)):
+                    cand = strat.fields(attempt)
+                    if not is_deletion(f, cand):
+                        ctx.fail("not-a-deletion", f"{name} {cfg}, run after the other strategy classes were constructed and used: candidate "
+                                 f"parts={cand[1]!r} is not the original {parts!r} minus atoms", case)
+                        break
+                    it.feedback(bool(accept) and k % accept == accept - 1)
+                    k += 1
+                    if k > 400:
+                        break
+                else:
+                    fin = strat.fields(it.testcase)
+                    if not is_deletion(f, fin):
+                        ctx.fail("not-a-deletion", f"{name} {cfg}, run after the other strategy classes were constructed and used: the final "
+                                 f"testcase parts={fin[1]!r} is not the original {parts!r} minus atoms", case)
+                ctx.nontriv("after-others", name, repr(cfg), accept)
+
+
 def search(ctx):
+    after_other_strategies(ctx)
     torn_writes(ctx)
     load_only(ctx, 1500 if ctx.thorough else 150)
     interleaved_iterators(ctx)
@@ -285,6 +338,7 @@ def run(ctx) -> int:
     sparse_strings(ctx)
     interleaved_iterators(ctx)
     special_cut_sets(ctx)
+    after_other_strategies(ctx)
     return common.decide(ctx, proof, RULE, search=search)
 
 
